@@ -20,7 +20,9 @@ CORE = ["true", "false", "and", "or", "(", ")"]
 KEYWORDS = {"and", "or", "(", ")"}
 VALUES = ["true", "false", "", "0", "no", "NO", "No", "nO", "False", "FALSE", "fAlSe", "x", "1", "yes",
           "00", "0.0", " ", "false ", " no", "nope", "off", "null", "none", "é", "ＦＡＬＳＥ", "faLſe",
-          "K", "falſe", "ɴo", "0́", "-0", "+0", "f", "n", "FALSE\n", "\tno", "${x}", "\"\""]
+          "K", "falſe", "ɴo", "0́", "-0", "+0", "f", "n", "FALSE\n", "\tno", "${x}", "\"\"",
+          # atoms that merely CONTAIN parentheses are ordinary (truthy) strings, not groups
+          "(0)", "(no)", "()", "((0))", "(FALSE)", "(x", "x)", ":)", "f(0)", ")(", "( 0 )", "0)", "(false"]
 
 
 def rand_tree(rng, depth, size):
@@ -171,8 +173,44 @@ def run(ck):
                               "replay_cmd": "printf 'T\\t%s\\n' | .cache/cargo-target/release/c06" % toks})
                 if len(ck.violations) >= 5:
                     break
+        # history stream: one and the same if / elseif / while / not LINE (same script, same context and state) evaluates
+        # several statements of equal length in a row (A, B, A ...); each verdict must be the stateless verdict of its own list
+        hist = []
+        pool = [t for t, m in zip(tcases[:n_exh], m_t[:n_exh]) if 2 <= len(t) <= 5 and m in ("T", "F")]
+        by_len = {}
+        for t, m in zip(tcases[:n_exh], m_t[:n_exh]):
+            if 1 <= len(t) <= 5 and m in ("T", "F") and t[0] not in KEYWORDS:
+                by_len.setdefault((len(t), m), []).append(t)
+        for _ in range(3000 if thorough else 400):
+            n = rng.randint(1, 5)
+            if (n, "T") not in by_len or (n, "F") not in by_len:
+                continue
+            a_, b_ = rng.choice(by_len[(n, "T")]), rng.choice(by_len[(n, "F")])
+            seq = rng.choice([[a_, b_, a_], [b_, a_, b_], [a_, b_, a_, b_], [a_, a_, b_, a_]])
+            hist.append(seq)
+        h_lines = ["TS\t" + "\t".join(enc_list(t) for t in seq) for seq in hist]
+        h_out = ck.impl(h_lines)
+        # stateless model verdicts of the members
+        flat = [t for seq in hist for t in seq]
+        flat_m = ck.model(["T\t" + enc_list(t) for t in flat])
+        pos = 0
+        for seq, line, o in zip(hist, h_lines, h_out):
+            want = flat_m[pos:pos + len(seq)]
+            pos += len(seq)
+            got = o.split(";")
+            dist["history"] = dist.get("history", 0) + 1
+            bad = len(got) != len(seq) or any(g.split(" ") != [w] * 4 for g, w in zip(got, want))
+            if bad and len(ck.violations) < 5:
+                found = True
+                ck.violation({"kind": "history: the same if / elseif / while / not line evaluated for several statements in one "
+                                      "context; a verdict differs from the stateless verdict of its own statement",
+                              "statements": seq, "wire": line, "model_per_statement": want,
+                              "implementation(not,if,elseif,while) per statement": got,
+                              "theorems": ["C06_eval", "C06_total"], "seed": ck.seed})
+            elif bad:
+                found = True
         ck.coverage.update({
-            "evaluations": len(tcases) + len(trees),
+            "evaluations": len(tcases) + len(trees) + len(flat),
             "distinct_nontrivial": len(nontriv),
             "rule": "every token sequence of length <= %d over %d tokens and <= %d over the 6 core tokens (exhaustive, "
                     "well-formed or not; verdict or error class compared for not/if/elseif/while), random token streams, "
